@@ -340,15 +340,6 @@ AlignOK(V, s, b) ==
 C12_Alignment(V) ==
   \A q \in DOMAIN V.R.secs : \A j \in DOMAIN V.R.secs[q].blocks :
      AlignOK(V, V.R.secs[q].name, V.R.secs[q].blocks[j])
-\* (defect mirrored by the model: a later, weaker request at the same position
-\*  overwrites the earlier one)
-AlignOverwritten(V) ==
-  \A q \in DOMAIN V.R.secs : \A j \in DOMAIN V.R.secs[q].blocks :
-     LET s == V.R.secs[q].name
-         b == V.R.secs[q].blocks[j]
-         rq == AlignIdx(V, s, b.o)
-     IN  AlignOK(V, s, b) \/ (rq # {} /\ b.al = V.toks[Max(rq)].a /\ b.al < Max({V.toks[i].a : i \in rq}))
-
 \* C12_Operands.  fo/fs: where the independent disassembler places the
 \* displacement / immediate fields of the instruction (x86); <<>> = unknown
 ExpAttrs(V, t, tgt) ==
@@ -603,8 +594,10 @@ Terminate(s) ==
       s2 == AppendData(s1, 1)
   IN  [s2 EXCEPT !.bt = SetF(@, pb, "string"), !.blk[cb].off = @ + 1,
                  !.secs[s.cur].blocks = Append(@, cb)]
-DoAscii(s, t) == Encoded(s, t.n, "ascii")
-DoString(s, t) == Terminate(Encoded(s, t.n - 1, "ascii"))
+\* emit_bytes: an empty literal emits nothing (no block, no encoding); the
+\* NUL of an empty .string is then an ordinary one-byte literal
+DoAscii(s, t) == IF t.n = 0 THEN s ELSE Encoded(s, t.n, "ascii")
+DoString(s, t) == IF t.n = 1 THEN Encoded(s, 1, "ascii") ELSE Terminate(Encoded(s, t.n - 1, "ascii"))
 \* emit_uleb128_value
 DoUleb(s, P, t) ==
   LET s1 == Split(s, FALSE)
@@ -614,10 +607,10 @@ DoUleb(s, P, t) ==
                ELSE LET s2 == AppendData([r.st EXCEPT !.sx = @ \cup {Sx(r.st, "A", r.nm, r.nm, 0, <<>>, 1)}], 1)
                     IN  Split([s2 EXCEPT !.bt = SetF(@, CurB(s2), "uleb128")], FALSE)
 
-\* _emit_alignment (the later request overwrites an earlier one on the same block)
+\* _emit_alignment (several requests on one block: the strictest wins)
 DoAlign(s, t) ==
   LET s1 == IF s.blk[CurB(s)].size > 0 THEN Split(s, TRUE) ELSE s
-  IN  [s1 EXCEPT !.al = SetF(@, CurB(s1), t.a)]
+  IN  [s1 EXCEPT !.al = SetF(@, CurB(s1), Max2(GetF(@, CurB(s1), 1), t.a))]
 
 \* CFI
 ProcsOfCur(s) == {i \in DOMAIN s.cfi : s.cfi[i].sec = s.cur}
@@ -894,17 +887,15 @@ LevelA(V, dec) ==
   /\ C12_Decode(V, dec) /\ C12_Tiling(V) /\ C12_TerminatorsEndBlocks(V) /\ C12_EdgeShape(V)
   /\ C12_Fallthrough(V) /\ C12_Labels(V) /\ (HasCfi(V) \/ C12_DataConversion(V))
   /\ C12_Operands(V, dec) /\ C13_Binding(V) /\ C13_TempSuffix(V)
-  /\ (C12_Alignment(V) \/ AlignOverwritten(V))
+  /\ C12_Alignment(V)
 \* the model agrees with the function RunAll (the actions and the fold are the same machine)
 FoldAgrees == ph = "done" => fin = RunAll(par, prog)
-\* findings of the code that the model mirrors (Level B follows the code)
-MirroredDefect(V) == V.exc = "AssertionError"
 InvDone ==
   ph = "done" =>
     LET toks == Flat(prog)
         V == ModelView(toks, par, fin)
         dec == NominalDec(toks)
-    IN  /\ (InDomain(V) /\ ~MirroredDefect(V) => Completes(V))
+    IN  /\ (InDomain(V) => Completes(V))
         /\ (InDomain(V) => C13_MultipleDefinitions(V) /\ C13_Undef(V))
         /\ (V.exc = "" => LevelA(V, dec))
         /\ (Len(prog) > 1 /\ ChunkingDomain(V) /\ InDomain(V) =>
